@@ -39,6 +39,15 @@ CHECKS = {
             'corruption are recorded as known findings.',
             'regions with different counts that meet, aggregating components that also request replicas and literal names equal to <replicated name><digits> are grey zones and excluded',
             'DESIGN.md §3 C03'),
+    'C04': ('exploration', 'exhaustive enumeration of defining-layer subsets x platforms x value shapes against an independent layering resolver',
+            'E2',
+            'Every subset of the 11 variable scopes / 9 option layers (default, selected and other platform; global and stage; user global/stage; component; overrides) defines a '
+            'layer-tagged value; chains, rebinding, competing definitions, pairs and typed options are enumerated completely; every component is observed on every platform through '
+            'FlowIRConcrete.get_component_configuration and through three product entry points (primitive and replicated package loader, real instance) and compared with a resolver '
+            'written from the statement (late-bound recursive substitution, undefined reference => error, declared types). Three defects fixed, one (early binding in the flattened '
+            'configuration) recorded as a known finding.',
+            'inside the user layer stage scope beats global scope (the statement leaves it open); bool spelling inside text, None values, cycles and override[default] are excluded',
+            'DESIGN.md §3 C04'),
     'C08': ('model_checking', 'explicit-state breadth-first search over histories of the real mutators/queries with canonical state hashing and a from-scratch differential oracle',
             'E2',
             'Level-synchronous BFS whose transition function is the real FlowIRConcrete / FlowIRExperimentConfiguration mutator and query calls (24-25 operations) from three '
@@ -80,6 +89,14 @@ CHECKS = {
             'Six defects found and fixed, one recorded as a known finding.',
             'rename/replace atomicity and ordering are assumed POSIX; the interposer covers the file operations the anchored writers use (checked by its self-test)',
             'DESIGN.md §2.3, §3 C14'),
+    'C16': ('exploration', 'exhaustive enumeration of single-aspect (thorough: pairwise) variations of instantiated workflows, partition comparison against an independent work descriptor',
+            'E2',
+            'Each world is a real instantiated workflow with real files. 8 base workflows x every hash-relevant variation (executable, each argument token, each consumed byte position, '
+            'method, image, producer definition/input, added/removed files) and every hash-irrelevant one (location, names, stages, unused variables, resources, times, reference order, '
+            'spelling, reload from instance) plus missing-input cases and a serialisation-ambiguity alphabet. Oracle: equality of a length-prefixed canonical work descriptor <=> equality '
+            'of strong hashes over ALL pairs of records; fuzzy hash bounded by two descriptors. Two defects fixed, three recorded as known findings.',
+            'environments, replicas, custom embedding functions, executables given as paths and literal arguments that spell a replaced reference are grey zones and excluded',
+            'DESIGN.md §3 C16'),
     'C17': ('exploration', 'exhaustive enumeration of platform x environment-definition x selection-spelling x launch-environment combinations against an independent environment model with a leak check',
             'E2',
             'Every combination of platform, package default environment shape, 7x6 named-environment layer templates, selection spelling (unset, empty, none/NONE, '
